@@ -118,7 +118,7 @@ def run(env: Env) -> Outcome:
     out.rule = ("serde: generated broker states, two round trips; pause: deterministic fan-out/collect workflows with retries (25% with retry delays), "
                 "snapshot_stop at a random quiet point, resume from JSON; non-trivial = the run was actually paused; distinct by (spec, schedule)")
     corpus = suite.load_corpus("C12")
-    suite.serde_corr(env, out, env.budget(1500, 30000))
+    suite.serde_corr(env, out, env.budget(1500, 30000), stability_sig="C12/roundtrip_not_stable")
     suite.direct_corr(env, out, env.budget(800, 16000))
     _pause_resume(env, out, env.budget(160, 3200), corpus)
     return out
